@@ -135,6 +135,9 @@ def render_btoks(toks):
             x = "`undef " + t["n"]
         elif k == "undefall":
             x = "`undefineall"
+        elif k == "cond":
+            th, el = render_btoks(t["a"][0]["a"]), render_btoks(t["a"][1]["a"])
+            x = "`%s %s %s `else %s `endif" % (t["s"], t["n"], th, el)
         else:
             raise ValueError(k)
         if not prev_glue:
